@@ -90,7 +90,7 @@ def parseSection : Nat → List Str → P (Option Node)
         if c0.type != .fenceOpen && !hasIndented then set stPre
         let c ← current
         let fenceChild : Option Nat := if c.type == .fenceOpen && c.col - 1 > blockIndent then some (c.col - 1) else none
-        if c.type == .fenceOpen && fenceChild.isNone then
+        if c.type == .fenceOpen && fenceChild.isNone && c.col - 1 ≥ blockIndent then
           let z ← parseLiteralZone
           let c2 ← current
           pure (some (.block key [.assign [] z c2.line c2.col pre none] t.line t.col leading target))
